@@ -1,5 +1,5 @@
 \* the property's side condition: no more distinct IDs than the window holds
-CONSTANTS IdPool = {a, b} LruCap = 2 MaxBatch = 3 MaxLists = 4 NoDedup = FALSE
+CONSTANTS IdPool = {a, b} LruCap = 2 MaxBatch = 3 MaxLists = 4 NoDedup = FALSE ForgetOnFailure = FALSE
 SPECIFICATION Spec
 CHECK_DEADLOCK FALSE
 INVARIANTS AtMostOnce OneWorker
